@@ -274,6 +274,9 @@ func (pr *progRender) fnExpr(sp string, unit int, sigStr string, body []string, 
 // mapCollExpr renders the collection argument of a cff.Map.
 func mapCollExpr(mk string, mp *rt.MapSpec) string {
 	e := fmt.Sprintf("%s%s(env.Coll(%d))", mk, mp.Elem.Suffix(), mp.Coll)
+	if mp.Boxed && mp.KeyK == "" && !mp.Named {
+		return fmt.Sprintf("box_%s{M: %s}.M", mp.Elem.Suffix(), e) // the same field of different composite literals
+	}
 	if mp.Named {
 		e = fmt.Sprintf("N%s%s(%s)", mk, mp.Elem.Suffix(), e) // conversion to the declared map type
 	}
@@ -468,6 +471,20 @@ func (pr *progRender) render() string {
 			opts = append(opts, func() string { return n.cff + ".ContinueOnError(" + pr.wrap("bcFalse") + ")" })
 		}
 		ptaskExpr := func(pt *rt.PTaskSpec) string {
+			if pt.Sp == "samemethod" {
+				m := "PT"
+				if pt.Ctx {
+					m += "C"
+				}
+				if pt.Err {
+					m += "E"
+				}
+				if m == "PT" {
+					m = "PTV"
+				}
+				pr.pre = append(pr.pre, fmt.Sprintf("uh_%d := &unitHolder{Env: env, Unit: %d}", pt.Unit, pt.Unit))
+				return fmt.Sprintf("uh_%d.%s", pt.Unit, m)
+			}
 			var body []string
 			if pt.Err {
 				body = []string{fmt.Sprintf("return env.PTask(%d, %s)", pt.Unit, ctxArg(pt.Ctx))}
@@ -529,6 +546,9 @@ func (pr *progRender) render() string {
 				coll := fmt.Sprintf("mkL_%s(env.Coll(%d))", sl.Elem.Suffix(), sl.Coll)
 				if sl.Named {
 					coll = fmt.Sprintf("mkNL_%s(env.Coll(%d))", sl.Elem.Suffix(), sl.Coll)
+				} else if sl.Boxed {
+					pr.pre = append(pr.pre, fmt.Sprintf("bx_%d := box_%s{Items: %s}", sl.Unit, sl.Elem.Suffix(), coll))
+					coll = fmt.Sprintf("bx_%d.Items", sl.Unit)
 				}
 				parts := []string{pr.wrapz(fe, "nil"), pr.wrapz(coll, "nil")}
 				if sl.End != nil {
@@ -907,6 +927,7 @@ func SupportSource() string {
 	x.f("package p")
 	x.f("")
 	x.f("import (")
+	x.f("\t\"context\"")
 	x.f("\t\"strconv\"")
 	x.f("")
 	x.f("\t\"vcase/ext\"")
@@ -915,6 +936,14 @@ func SupportSource() string {
 	x.f(")")
 	x.f("")
 	x.f("var _ = rt.MapKey")
+	x.f("")
+	x.f("// unitHolder binds one parallel task: several tasks of a directive are written as the")
+	x.f("// SAME method of DIFFERENT receivers (a.PTC, b.PTC).")
+	x.f("type unitHolder struct {\n\tEnv  *rt.Env\n\tUnit int\n}")
+	x.f("func (h *unitHolder) PTCE(ctx context.Context) error { return h.Env.PTask(h.Unit, ctx) }")
+	x.f("func (h *unitHolder) PTC(ctx context.Context)         { h.Env.PTask(h.Unit, ctx) }")
+	x.f("func (h *unitHolder) PTE() error                     { return h.Env.PTask(h.Unit, nil) }")
+	x.f("func (h *unitHolder) PTV()                           { h.Env.PTask(h.Unit, nil) }")
 	x.f("")
 	x.f("// G is a generic carrier.")
 	x.f("type G[T any] struct {\n\tV   T\n\tTag uint64\n}")
@@ -965,6 +994,7 @@ func SupportSource() string {
 		x.f("type NmkM_%[1]s map[string]%[2]s", sfx, typ)
 		x.f("type NmkMI_%[1]s map[int]%[2]s", sfx, typ)
 		x.f("type NmkMS_%[1]s map[MK]%[2]s", sfx, typ)
+		x.f("// box_%[1]s holds collections in struct fields: several collections of a directive are\n// written as the SAME field of DIFFERENT values (x.Items, y.Items).\ntype box_%[1]s struct {\n\tItems []%[2]s\n\tM     map[string]%[2]s\n}", sfx, typ)
 		if e.K == "T" {
 			x.f("type NL_%[1]s []%[2]s", sfx, typ)
 			x.f("func mkNL_%[1]s(tags []uint64) NL_%[1]s { return NL_%[1]s(mkL_%[1]s(tags)) }", sfx)
